@@ -155,7 +155,9 @@ class ProgGen:
         p = " " * ind
         self.w(f"{p}async def {name}({shape}):")
         self.w(f"{p}    R.enter({names!r})")
-        for i in range(self.r.choice([0, 1, 2])):
+        for i in range(self.r.choice([0, 1, 2, 3])):
+            if names and self.r.random() < 0.5:      # rebind a parameter before suspending
+                self.w(f"{p}    {self.r.choice(names)} = {self.v()}")
             self.w(f"{p}    R.act('await')")
             self.w(f"{p}    await Susp()")
         for l in self.exit_stmts(ind + 4):
